@@ -72,6 +72,19 @@ CHECKS = {
         note="Bounded: N<=5 atoms per alphabet (exhaustive); the model's recursion is unbounded, the implementation's depth limit is probed separately; NotImplementedError from the general transmission line model counts as a deliberate refusal.",
         technique="TLA+ spec (CDC.tla, CDCTotal.tla) + TLC exhaustive enumeration of atom sequences; spec->code replay of every input with outcome-class comparison",
     ),
+    "C17": dict(
+        text="specs/FanOut.tla models the shape shared by every fan-out point (submit, W workers, ordered or completion-order "
+             "collection, stable sort by a key, pick the head; Z-HIT = two chained stages so the submission order is arbitrary too) and "
+             "TLC checks that the winner is independent of submission and completion order for the collection mode and sort key each "
+             "fan-out point uses (and finds the counterexample for completion-order collection with a non-total key). Every "
+             "(submission order, completion order) pair of the model is replayed on the real perform_zhit through a pool substitute "
+             "that delivers results in exactly that order, on tie-prone and generic spectra, and must equal the serial result; real "
+             "multiprocessing runs (num_procs 1..16, delayed workers, re-seeded global RNG, repeats) of fit_circuit, perform_zhit, "
+             "evaluate_log_F_ext and the CNLS test must reproduce the serial result; mock data is bit-identical per seed.",
+        design_ref="§4 C17",
+        note="T = 4 task blocks in the model, expanded to the real candidate lists; no pool timeout fires; BHT (unseeded global RNG by design) is excluded.",
+        technique="TLA+ spec (FanOut.tla) + TLC exhaustive over keys x orders x interleavings; spec->code replay of every schedule through a controlled pool; differential serial-vs-parallel runs",
+    ),
     "C18": dict(
         text="specs/Progress.tla is the Progress counter machine (enter/increment/set/set_message/exit, the module-global 'recent' "
              "marker shared by nested objects, per-object notification step) plus the step accounting of perform_zhit and fit_circuit; "
